@@ -175,6 +175,8 @@ static bool g_io_points = false;
 void set_io_points(bool on) { g_io_points = on; }
 bool io_points() { return g_io_points; }
 bool alloc_point_ok() { return g_io_points && t_task != nullptr && t_in_wrapper == 0; }
+NoPoints::NoPoints() { t_in_wrapper++; }
+NoPoints::~NoPoints() { t_in_wrapper--; }
 i64 total_qng_calls() { return g_total_qng; }
 i64 total_qng_fails() { return g_total_qng_fail; }
 
